@@ -148,34 +148,28 @@ fn main() {
         }
     });
     let pem = fixture("localhost.pem");
-    let host = |name: &str| TlsHostInfo { hostname: name.to_string(), cert_chain_path: pem.clone(), private_key_path: pem.clone(), allowed_sni: vec![] };
 
     for (rules_on, dual) in [(true, false), (false, false), (true, true)] {
-        let port = { let l = std::net::TcpListener::bind("127.0.0.1:0").unwrap(); l.local_addr().unwrap().port() };
-        let mut b = Settings::builder()
-            .listen_address(if dual { format!("[::]:{}", port) } else { format!("127.0.0.1:{}", port) }).unwrap()
-            .listen_protocols(ListenProtocolSettings { http1: Some(Http1Settings::builder().build()), http2: Some(Http2Settings::builder().build()), quic: None })
-            .allow_private_network_connections(true)
-            .clients(vec![trusttunnel::authentication::registry_based::Client { username: "alice".into(), password: "S3cretAlicePw".into() }])
-            .tls_handshake_timeout(Duration::from_secs(2));
-        if rules_on {
-            b = b.rules_engine(RulesEngine::from_config(RulesConfig { rule: vec![
-                Rule { cidr: Some("127.0.0.64/26".into()), client_random_prefix: None, action: RuleAction::Deny },
-                Rule { cidr: None, client_random_prefix: Some("deadbeefdeadbeef".into()), action: RuleAction::Deny },
-            ] }));
-        }
-        let settings = b.build().expect("settings");
-        let hosts = TlsHostsSettings::builder().main_hosts(vec![host("localhost")]).ping_hosts(vec![host("ping.localhost")]).build().expect("hosts");
-        let core: &'static Core = Box::leak(Box::new({
+        let pem2 = pem.clone();
+        let (_core, port, listen) = start_listening_core(&server_rt, move |port| {
+            let host = |name: &str| TlsHostInfo { hostname: name.to_string(), cert_chain_path: pem2.clone(), private_key_path: pem2.clone(), allowed_sni: vec![] };
+            let mut b = Settings::builder()
+                .listen_address(if dual { format!("[::]:{}", port) } else { format!("127.0.0.1:{}", port) }).unwrap()
+                .listen_protocols(ListenProtocolSettings { http1: Some(Http1Settings::builder().build()), http2: Some(Http2Settings::builder().build()), quic: None })
+                .allow_private_network_connections(true)
+                .clients(vec![trusttunnel::authentication::registry_based::Client { username: "alice".into(), password: "S3cretAlicePw".into() }])
+                .tls_handshake_timeout(Duration::from_secs(2));
+            if rules_on {
+                b = b.rules_engine(RulesEngine::from_config(RulesConfig { rule: vec![
+                    Rule { cidr: Some("127.0.0.64/26".into()), client_random_prefix: None, action: RuleAction::Deny },
+                    Rule { cidr: None, client_random_prefix: Some("deadbeefdeadbeef".into()), action: RuleAction::Deny },
+                ] }));
+            }
+            let settings = b.build().expect("settings");
+            let hosts = TlsHostsSettings::builder().main_hosts(vec![host("localhost")]).ping_hosts(vec![host("ping.localhost")]).build().expect("hosts");
             let auth: Arc<dyn trusttunnel::authentication::Authenticator> = Arc::new(trusttunnel::authentication::registry_based::RegistryBasedAuthenticator::new(settings.get_clients()));
-            Core::new(settings, Some(auth), hosts, Shutdown::new())
-        }.expect("core")));
-        let listen = server_rt.spawn(async move { let _ = core.listen().await; });
-        for _ in 0..200 {
-            if TcpStream::connect(("127.0.0.1", port)).is_ok() { break; }
-            std::thread::sleep(Duration::from_millis(20));
-        }
-        std::thread::sleep(Duration::from_millis(300));
+            Core::new(settings, Some(auth), hosts, Shutdown::new()).expect("core")
+        });
         verif::start_recording();
         // the builder always installs a rules engine (default: allow all); `rules_on` only adds deny rules
         verif::emit("Config", format_args!("\"rules\":true,\"deny_rules\":{},\"dual\":{},\"canon\":{}", rules_on, dual,
